@@ -28,6 +28,9 @@ def models_src(app, present, feats, p_installed):
                     out.append("    rel = models.ManyToManyField('B')")
             if 'farM2M' in feats:
                 out.append("    far = models.ManyToManyField('r.C')")
+        if m == 'E':
+            # a tree: the model refers to itself (Purge.tla: no table of its own, nothing to order)
+            out.append("    parent = models.ForeignKey('self', on_delete=models.CASCADE, null=True)")
         if m == 'F' and p_installed:
             if 'crossFK' in feats:
                 out.append("    a = models.ForeignKey('p.A', on_delete=models.CASCADE, null=True)")
